@@ -118,6 +118,41 @@ def impl_parse(case, doc, strict, count_calls=True, budget=2000000):
         return dict(outcome="Other:" + type(e).__name__, calls=counter[0], events=counter[1], msg=str(e)[:120])
 
 
+def budgeted(fn, budget, wall=20):
+    """run fn() counting interpreter call events (Python and C calls); returns (outcome, events, value or exception)"""
+    counter = [0]
+
+    class Budget(BaseException):
+        pass
+
+    def prof(frame, event, arg):
+        if event in ("call", "c_call"):
+            counter[0] += 1
+            if counter[0] > budget and not (frame.f_code.co_flags & 0x20):
+                raise Budget()
+    import signal
+
+    def on_alarm(signum, frm):
+        raise Budget()
+    old_handler = signal.signal(signal.SIGALRM, on_alarm)
+    signal.alarm(wall)
+    try:
+        sys.setprofile(prof)
+        try:
+            v = fn()
+        finally:
+            sys.setprofile(None)
+            signal.alarm(0)
+            signal.signal(signal.SIGALRM, old_handler)
+        return "ok", counter[0], v
+    except Budget:
+        return "BUDGET", counter[0], None
+    except RecursionError as e:
+        return "RecursionError", counter[0], e
+    except Exception as e:  # noqa
+        return type(e).__name__, counter[0], e
+
+
 def canon_value(v):
     """zeep value -> plain python (dict / list / str / None); lxml elements -> canonical nodes"""
     from zeep.xsd.valueobjects import CompoundValue
